@@ -342,6 +342,20 @@ def run(world, rep, tier, only=None):
             r = cei.reach(fail, avoid=undo) if fail else set()
             if any(x.ev and x.ev["e"] == "R" for x in r) or cei.exit_node() in r:
                 bad.append(end_.line)
+        # if the inode was marked in use before the write, the failing path takes the mark back as well
+        marked = [c_ for c_ in calls_to(cei, "ext2fs_inode_alloc_stats2", "ext2fs_inode_alloc_stats") if cei.dominated_by(w_, [c_]) and
+                  (T.const(arg(c_, 2)) or 0) > 0]
+        unmark = [c_ for c_ in calls_to(cei, "ext2fs_inode_alloc_stats2", "ext2fs_inode_alloc_stats") if (T.const(arg(c_, 2)) or 0) < 0]
+        if marked:
+            for b in cei.blocks:
+                lit = cei.literal(b)
+                end_ = cei.block_end(b)
+                if not lit or T.path(lit[0]) not in ("ret", "retval", "err") or end_ not in cei.reach(cei.after(w_)):
+                    continue
+                fail = [m for (m, si) in cei.succ(end_) if (si == 0) == lit[1] and m not in unmark]
+                r = cei.reach(fail, avoid=unmark) if fail else set()
+                if any(x.ev and x.ev["e"] == "R" for x in r) or cei.exit_node() in r:
+                    bad.append(("inode mark kept", end_.line))
         rep.ob("C15.k", site(cei, "a failed value write is undone before the error is returned#%d" % i), bool(undo) and not bad,
                "from the failing side of the status test after ext2fs_file_write() every path to a return passes ext2fs_punch(): %s" % bad)
 
